@@ -235,6 +235,12 @@ emitSetFileIdName(String name)
 	emitFileIdName = name;
 }
 
+String
+emitFileIdNameGiven(void)
+{
+	return emitFileIdName;
+}
+
 void
 emitSetFileIdPrefix(String name)
 {
